@@ -570,7 +570,7 @@ class C12Prop(CommProp):
             c = {"id": "m%d" % i, "spec": g["spec"], "nodes": g["nodes"], "edges": g["edges"], "calls": calls}
             if any(e[2] is not None for e in g["edges"]) and r2.below(100) < 20:
                 # dyadic weight scale applied inside the harness (see centgen.py); modularity is invariant
-                c["wscale"] = r2.pick([-60, -3, 40])
+                c["wscale"] = r2.pick([-60, -3, -1, 40])
             cases.append(c)
         return cases
 
